@@ -51,7 +51,7 @@ class C03(Check):
         n = 3500 if tier == 'quick' else 60000
         for k in range(n):
             depth = rng.choice([1, 2, 3, 3, 4])
-            opts = gen.GenOpts(max_depth=depth, ctx_weight=8, tee_weight=4, allow_progress=False)
+            opts = gen.GenOpts(max_depth=depth, ctx_weight=8, tee_weight=4, allow_progress=False, no_streaming_mutation=True)
             prog, _ = gen.gen_pipeline(rng, 'i', rng.randint(1, 4), opts)
             ln = rng.choice([0, 0, 1, 1, 2, 3, 6, 12, 30, 60])
             items = gen.gen_items(rng, n=ln, hi=rng.choice([3, 12, 30]), sorted_=rng.random() < 0.3)
